@@ -176,7 +176,10 @@ impl HookCollector {
 
 	/// the recorder whose record makes `f` true is kept waiting (the daemon with it)
 	pub fn hold_when(&self, f: HoldFn) {
-		self.st.0.lock().unwrap().hold = Some(f);
+		// a new rule applies from now on, also after an earlier `release()` (one collector serves several daemon lives)
+		let mut g = self.st.0.lock().unwrap();
+		g.hold = Some(f);
+		g.release_all = false;
 	}
 
 	/// lets the hooks held right now go on; later ones are still subject to the hold rule
